@@ -53,7 +53,9 @@ type JobScenario struct {
 	Kill       []string `json:"kill,omitempty"` // menu of kill offsets in seconds relative to now: "0", "30"
 	MaxKill    int      `json:"maxKill,omitempty"`
 	DeleteJob  bool     `json:"deleteJob,omitempty"`
-	ForeignPod string   `json:"foreignPod,omitempty"` // "" | noowner | otherowner : occupies attempt 0 of index 0
+	ForeignPod string   `json:"foreignPod,omitempty"` // "" | noowner | otherowner : occupies attempt ForeignRetry of index 0
+	// ForeignRetry: which attempt's name the foreign pod occupies (0: the first task, 1: the first retry).
+	ForeignRetry int `json:"foreignRetry,omitempty"`
 	NotStarted bool     `json:"notStarted,omitempty"` // job is created but never started by the harness; action u:start available
 	SecondJob  bool     `json:"secondJob,omitempty"`
 	MaxResync  int      `json:"maxResync,omitempty"` // budget of spurious re-syncs (informer resync) of the Job key
@@ -285,7 +287,7 @@ func (w *jobWorld) plantForeignPod() {
 	rj := w.API.Job("default/j1")
 	idx := parallel.GenerateIndexes(rj.Spec.Template.Parallelism)[0]
 	hash, _ := parallel.HashIndex(idx)
-	name := fmt.Sprintf("%s-%s-0", rj.Name, hash)
+	name := fmt.Sprintf("%s-%s-%d", rj.Name, hash, w.scn.ForeignRetry)
 	pod := &corev1.Pod{
 		ObjectMeta: metav1.ObjectMeta{Namespace: "default", Name: name, Labels: map[string]string{"foreign": "true"}},
 		Spec:       corev1.PodSpec{Containers: []corev1.Container{{Name: "x", Image: "other"}}},
@@ -871,6 +873,11 @@ func (w *jobWorld) onPodWrite(wr sim.Write) {
 		if rj.Status.Condition.Finished != nil || (rj.Status.ParallelStatus != nil && rj.Status.ParallelStatus.Complete) {
 			w.Violate("C08", "create-after-complete", fmt.Sprintf("pod %s created although the job status already says complete/finished", p.Name), w.features()...)
 		}
+		if rj.Status.Condition.Finished == nil && w.completeKnown(rj) {
+			// Not yet written, but decided by what the controller has in front of it in this very sync
+			// (its own status plus the task states in its pod cache).
+			w.Violate("C08", "create-after-complete", fmt.Sprintf("pod %s created although the tasks the controller already knows of complete the job", p.Name), w.features()...)
+		}
 		if cj := w.cachedJob(sim.ObjKey(rj)); cj != nil {
 			if cj.Spec.KillTimestamp != nil {
 				w.Violate("C08", "create-with-kill", fmt.Sprintf("pod %s created although the job has a kill timestamp", p.Name), w.features()...)
@@ -919,14 +926,68 @@ func (w *jobWorld) successKnown(rj *execution.Job, hash string) bool {
 			}
 		}
 	}
+	// ... or in its pod cache, for a task it has listed (a sync only looks up the tasks of status.tasks).
 	for _, p := range w.podsOf(rj) {
-		if podHash(p) == hash {
+		if podHash(p) == hash && listedTask(rj, p.Name) {
 			if cp := w.cachedPod(sim.ObjKey(p)); cp != nil && cp.Status.Phase == corev1.PodSucceeded {
 				return true
 			}
 		}
 	}
 	return false
+}
+
+func listedTask(rj *execution.Job, name string) bool {
+	for _, t := range rj.Status.Tasks {
+		if t.Name == name {
+			return true
+		}
+	}
+	return false
+}
+
+// failureKnown: every allowed attempt of the index was created and each is known to the controller
+// (status or pod cache) to have ended without success.
+func (w *jobWorld) failureKnown(rj *execution.Job, hash string) bool {
+	max := refMaxAttempts(rj)
+	if int64(w.mem.Created[string(rj.UID)+"/"+hash]) < max {
+		return false
+	}
+	failed := map[string]bool{}
+	for _, t := range rj.Status.Tasks {
+		idx := parallel.GetDefaultIndex()
+		if t.ParallelIndex != nil {
+			idx = *t.ParallelIndex
+		}
+		if h, _ := parallel.HashIndex(idx); h == hash && t.FinishTimestamp != nil && t.Status.Result != execution.TaskSucceeded {
+			failed[t.Name] = true
+		}
+	}
+	for _, p := range w.podsOf(rj) {
+		if podHash(p) == hash && listedTask(rj, p.Name) {
+			if cp := w.cachedPod(sim.ObjKey(p)); cp != nil && cp.Status.Phase == corev1.PodFailed {
+				failed[p.Name] = true
+			}
+		}
+	}
+	return int64(len(failed)) >= max
+}
+
+// completeKnown: the completion strategy is decided by what the controller knows.
+func (w *jobWorld) completeKnown(rj *execution.Job) bool {
+	hashes := indexHashes(rj)
+	succ, exhausted := 0, 0
+	for _, h := range hashes {
+		if w.successKnown(rj, h) {
+			succ++
+		} else if w.failureKnown(rj, h) {
+			exhausted++
+		}
+	}
+	if strategyOf(rj) == execution.AnySuccessful {
+		return succ > 0 || exhausted == len(hashes)
+	}
+	return succ == len(hashes) || exhausted > 0
 }
 
 func (w *jobWorld) judgeDelete(wr sim.Write, p *corev1.Pod, rj *execution.Job) {
@@ -1146,6 +1207,13 @@ func (w *jobWorld) onJobWrite(wr sim.Write) {
 			w.Violate("C09", "task-forgotten", "task "+t.Name+" disappeared from status.tasks", w.features()...)
 			continue
 		}
+		// A final state read from the task itself (not the one pre-recorded when a deletion was
+		// requested, which the real outcome may still replace) is the last known state for good.
+		if r := t.Status.Result; t.Status.State == execution.TaskTerminated && (r == execution.TaskSucceeded || r == execution.TaskFailed) && wr.Actor == "ctrl" {
+			if nt.Status.State != t.Status.State || nt.Status.Result != r {
+				w.Violate("C09", "last-known-state-lost", fmt.Sprintf("task %s was recorded as %s/%s and is now listed as %s/%s", t.Name, t.Status.State, r, nt.Status.State, nt.Status.Result), w.features()...)
+			}
+		}
 		if !t.RunningTimestamp.IsZero() && nt.RunningTimestamp.IsZero() {
 			w.Violate("C11", "running-time-cleared", "task "+t.Name+" lost its running timestamp", w.features()...)
 		}
@@ -1266,16 +1334,31 @@ func (w *jobWorld) checkState(quiescent bool) {
 		// C12: kill liveness. At rest after the kill time: every live task must at least be
 		// marked for deletion; with nothing alive the Job must be terminal.
 		if ts := rj.Spec.KillTimestamp; ts != nil && !ts.After(now) && started && rj.DeletionTimestamp == nil {
-			undeleted := 0
+			undeleted, unlisted := 0, 0
 			for _, p := range pods {
 				if !podFinished(p) && p.DeletionTimestamp == nil {
 					undeleted++
+					listed := false
+					for _, t := range rj.Status.Tasks {
+						if t.Name == p.Name {
+							listed = true
+						}
+					}
+					if !listed {
+						unlisted++
+					}
 				}
+			}
+			killFeatures := w.features()
+			if undeleted > 0 && unlisted == undeleted {
+				// only tasks the Job never recorded are left (a different defect: C09)
+				killFeatures = append(killFeatures, "unlisted-task")
+				sort.Strings(killFeatures)
 			}
 			stuckOK := w.scn.KubeletDead && (rj.Spec.Template.ForbidTaskForceDeletion || refForceDelete(cfg) <= 0)
 			switch {
 			case undeleted > 0:
-				w.Violate("C12", "kill-liveness", fmt.Sprintf("kill timestamp passed, system at rest, %d live task(s) not deleted", undeleted), w.features()...)
+				w.Violate("C12", "kill-liveness", fmt.Sprintf("kill timestamp passed, system at rest, %d live task(s) not deleted", undeleted), killFeatures...)
 			case alive > 0 && !future && !stuckOK && w.scn.KubeletDead:
 				w.Violate("C12", "kill-liveness", fmt.Sprintf("kill timestamp passed, kubelet unresponsive, force deletion allowed, system at rest for good, %d task(s) still alive", alive), w.features()...)
 			case alive == 0 && fin == nil:
